@@ -11,13 +11,14 @@ namespace YouVerif.C16
 structure StaticEq (w w' : World) : Prop where
   acct : ∀ a, w'.acct a = w.acct a ∨ ((w.acct a).live = false ∧ w'.acct a = Acct.fresh (w.acct a).bal)
   logs : w'.logs = w.logs
+  logSize : w'.logSize = w.logSize
   refund : w'.refund = w.refund
   burnt : w'.burnt = w.burnt
 
-theorem StaticEq.refl (w : World) : StaticEq w w := ⟨fun _ => Or.inl rfl, rfl, rfl, rfl⟩
+theorem StaticEq.refl (w : World) : StaticEq w w := ⟨fun _ => Or.inl rfl, rfl, rfl, rfl, rfl⟩
 
 theorem StaticEq.trans {a b c : World} (h1 : StaticEq a b) (h2 : StaticEq b c) : StaticEq a c := by
-  refine ⟨fun x => ?_, h2.logs.trans h1.logs, h2.refund.trans h1.refund, h2.burnt.trans h1.burnt⟩
+  refine ⟨fun x => ?_, h2.logs.trans h1.logs, h2.logSize.trans h1.logSize, h2.refund.trans h1.refund, h2.burnt.trans h1.burnt⟩
   rcases h1.acct x with e1 | ⟨l1, e1⟩ <;> rcases h2.acct x with e2 | ⟨l2, e2⟩
   · exact Or.inl (e2.trans e1)
   · right; rw [e1] at l2 e2; exact ⟨l2, e2⟩
@@ -34,7 +35,7 @@ theorem StaticEq.live' {w w' : World} (h : StaticEq w w') {a : Addr} (hl : (w.ac
     (w'.acct a).live = true := by rw [h.live hl]; exact hl
 
 theorem createAccount_staticEq (w : World) (a : Addr) (h : (w.acct a).live = false) : StaticEq w (w.createAccount a) := by
-  refine ⟨fun x => ?_, rfl, rfl, rfl⟩
+  refine ⟨fun x => ?_, rfl, rfl, rfl, rfl⟩
   by_cases e : x = a
   · subst e; right; exact ⟨h, by simp [World.createAccount]⟩
   · left; exact set_acct_other w _ e
